@@ -453,7 +453,7 @@ func extrapolatedRate(samples []promql.Point, isCounter, isRate bool, stepTime i
 	}
 	factor := extrapolateToInterval / sampledInterval
 	if isRate {
-		factor /= float64(selectRange / 1000)
+		factor /= float64(selectRange) / 1000
 	}
 	resultValue *= factor
 
